@@ -281,6 +281,15 @@ class LifecycleRun:
                           lambda: f"verify(pw, None) computed {n} digests of the default scheme ({self.default}); expected {exp} "
                                   f"({'first call after (re)load' if self.fresh else 'dummy hash memoised'})", fresh=self.fresh)
                 self.fresh = False
+        # "always False": also for the one password an attacker can read in the library's source -- the fixed secret whose hash the
+        # dummy verification compares against (str and bytes), and for the empty password
+        from passlib.context import CryptContext
+
+        dummy = getattr(CryptContext, "_dummy_secret", "too many secrets")
+        for pw in (dummy, dummy.encode("utf-8") if isinstance(dummy, str) else dummy, "too many secrets", ""):
+            for fn, want in ((lambda: self.cc.verify(pw, None), False), (lambda: self.cc.verify_and_update(pw, None), (False, None))):
+                r = _call(fn)
+                ctx.check(r == ("ok", want), "C18", "verify-none-answer", f"password {pw!r} against a missing hash -> {r[:2]}, expected {want}", pw="dummy-secret" if pw else "empty")
         ctx.nontrivial = True
 
     def op_policy_update(self, op, rec):
